@@ -9,7 +9,7 @@ from props.C17 import replay_request
 
 ID = "C06"
 LEVEL = "proof"
-CONTRACT_MODULES = ["contracts.status", "contracts.auth", "contracts.transport", "contracts.aliases"]
+CONTRACT_MODULES = ["contracts.status", "contracts.auth", "contracts.transport", "contracts.aliases", "contracts.registry"]
 T = "pyopenapi_gen.core.http_transport"
 EXPLANATION = ("Status-range predicates, the alias-generation loops of ExceptionVisitor.visit and ExceptionsEmitter._generate_for_codes "
                "(loop invariants against a recursive spec: one class per 4xx/5xx code, 4xx under ClientError, 5xx under ServerError) and "
